@@ -27,7 +27,7 @@ Theorem pl_single_digit c i b :
   valid_PL (set_nth i b c) = false.
 Proof.
   intros V NE Hi Hb Hne. destruct (pl_shape c V NE) as [L D].
-  apply (detect_single valid_PL F_PL 0 11 10); auto; try lia; try reflexivity.
+  apply (detect_single valid_PL F_PL (fun _ => 0) 11 10); auto; try lia; try reflexivity.
   - exact pl_lin.
   - do 10 (destruct i as [|i]; [solve_detect|]). lia.
   - apply (digits_n_nth 10); assumption.
@@ -61,7 +61,7 @@ Theorem ch_single_digit c i b :
   valid_CH (set_nth i b c) = false.
 Proof.
   intros V NE Hi Hb Hne. destruct (ch_shape c V NE) as [L D].
-  apply (detect_single valid_CH F_CH 0 11 10); auto; try lia; try reflexivity.
+  apply (detect_single valid_CH F_CH (fun _ => 0) 11 10); auto; try lia; try reflexivity.
   - exact ch_lin.
   - destruct i as [|i]; [lia|]. do 9 (destruct i as [|i]; [solve_detect|]). lia.
 Qed.
